@@ -55,6 +55,34 @@ Pointset_Powerset<PSET>::add_disjunct(const PSET& ph) {
   PPL_ASSERT_HEAVY(x.OK());
 }
 
+template <typename PSET>
+void
+Pointset_Powerset<PSET>::least_upper_bound_assign(const Pointset_Powerset& y) {
+  Pointset_Powerset& x = *this;
+  if (x.space_dimension() != y.space_dimension()) {
+    std::ostringstream s;
+    s << "PPL::Pointset_Powerset<PSET>::upper_bound_assign(y):\n"
+      << "this->space_dimension() == " << x.space_dimension() << ", "
+      << "y.space_dimension() == " << y.space_dimension() << ".";
+    throw std::invalid_argument(s.str());
+  }
+  Base::least_upper_bound_assign(y);
+}
+
+template <typename PSET>
+void
+Pointset_Powerset<PSET>::upper_bound_assign(const Pointset_Powerset& y) {
+  least_upper_bound_assign(y);
+}
+
+template <typename PSET>
+bool
+Pointset_Powerset<PSET>
+::upper_bound_assign_if_exact(const Pointset_Powerset& y) {
+  least_upper_bound_assign(y);
+  return true;
+}
+
 template <>
 template <typename QH>
 Pointset_Powerset<NNC_Polyhedron>
